@@ -1,5 +1,6 @@
 /- Line-protocol verbs for C16. -/
 import FwdVerif.Model.C16
+import FwdVerif.Model.C16Src
 
 namespace FwdVerif
 namespace C16
@@ -26,6 +27,18 @@ def encodeRule : Rule → String
 def decodeRules (s : String) : Option (List Rule) := do
   let raws ← bytesList s
   raws.mapM parseRule
+
+def encodeTexts : Except CsvErr (List Bytes) → String
+  | .ok ts => s!"ok {hexList ts}"
+  | .error .eof => "err eof"
+  | .error .bareQuote => "err bare-quote"
+  | .error .quote => "err quote"
+
+def decodeConfig (s : String) : Option (Option ConfigValue) :=
+  if s = "~" then some none
+  else if s.startsWith "l:" then (bytesList ((s.drop 2).toString)).map (fun xs => some (.list xs))
+  else if s.startsWith "t:" then (bytesOfHex ((s.drop 2).toString)).map (fun t => some (.text t))
+  else none
 
 def handle : List String → String
   | ["parse", raw] =>
@@ -76,6 +89,25 @@ def handle : List String → String
     match l?, m? with
     | some l, some m => ofBool (appliesTo l m)
     | _, _ => "bad-op"
+  | ["csv", raw] =>
+    -- `encoding/csv` Reader.Read (default settings) on the value of a list flag
+    match bytesOfHex raw with
+    | none => "bad-op"
+    | some v => encodeTexts (csvRecord v)
+  | ["source", flags, env, config] =>
+    -- the rule texts of one list by where it comes from: flags = values of the flag's occurrences,
+    -- env = `~` (unset) | hex, config = `~` (key absent) | `l:<hex list>` | `t:<hex>`;
+    -- answer: `err <kind>` | `ok <texts> 0` (some text is not a rule) | `ok <texts> 1 <the rules, printed>`
+    match bytesList flags, optBytes env, decodeConfig config with
+    | some fl, some e, some c =>
+      let s : Source := { flags := fl, env := e, config := c }
+      match rulesOfSource s with
+      | .error _ => encodeTexts (rulesOfSource s)
+      | .ok ts =>
+        match rulesOf s with
+        | none => s!"{encodeTexts (.ok ts)} 0"
+        | some rs => s!"{encodeTexts (.ok ts)} 1 {hexList (rs.map printRule)}"
+    | _, _, _ => "bad-op"
   | _ => "bad-op"
 
 end C16
